@@ -14,6 +14,7 @@
 -/
 import EnrVerif.Proofs.StepLemmas
 import EnrVerif.Proofs.ToyScheme
+import EnrVerif.Proofs.Examples
 
 namespace EnrVerif
 
@@ -122,6 +123,44 @@ example :
 /-- the hypotheses of `step_no_wrap_kind` hold for the valid record `rMax` -/
 example : step tinyS rMax (.setUdp4 30303) pk0 none = (.err .seqTooHigh, rMax) :=
   step_no_wrap_kind tinyS rMax _ pk0 none pMax (by decide) rfl pMax_ok (by decide)
+
+/-! ### non-vacuity, continued: the remaining theorems on the same records -/
+
+/-- `step_setSeq_exact` and `step_seq_lt` on that `set_seq` call -/
+example : rMax.seq = 2 ^ 64 - 1 ∧ rMax.seq < 2 ^ 64 :=
+  have h : step tinyS r0 (.setSeq (2 ^ 64 - 1)) pk0
+      ((signRequest tinyS r0 (.setSeq (2 ^ 64 - 1)) pk0).map (tinySign pk0)) = (.ok .unit, rMax) := rfl
+  ⟨step_setSeq_exact tinyS r0 _ pk0 _ _ rMax h,
+   step_seq_lt tinyS r0 (.setSeq (2 ^ 64 - 1)) pk0 _ _ rMax
+     (show (2 ^ 64 - 1 : Nat) < 2 ^ 64 by decide) h⟩
+
+/-- `step_no_wrap` / `step_no_wrap_errors` at `rMax`, for an update whose value is ill-typed:
+    not `Ok`, not `SigningError`, record unchanged -/
+example : ∃ e, (step tinyS rMax (.insertRaw kTcp (encBytes [1, 2, 3])) pk0 none).1 = .err e ∧
+    e ≠ .signingError ∧ (step tinyS rMax (.insertRaw kTcp (encBytes [1, 2, 3])) pk0 none).2 = rMax :=
+  step_no_wrap tinyS rMax _ pk0 none (by decide) rfl
+
+example : step tinyS rMax (.insertRaw kTcp (encBytes [1, 2, 3])) pk0 none =
+    (.err (.invalidRlp .overflow), rMax) := rfl
+
+/-- the largest sequence number on the wire: `88 ff ff ff ff ff ff ff ff`; one more is rejected -/
+example : encUint (2 ^ 64 - 1) = [136, 255, 255, 255, 255, 255, 255, 255, 255] := by decide
+
+example : decodeUint 8 ([136, 255, 255, 255, 255, 255, 255, 255, 255] ++ [7]) = .ok (2 ^ 64 - 1, [7]) := by
+  have h := seq_roundtrip (2 ^ 64 - 1) (by decide) [7]
+  rwa [show encUint (2 ^ 64 - 1) = [136, 255, 255, 255, 255, 255, 255, 255, 255] by decide] at h
+
+example : decodeUint 8 [137, 1, 0, 0, 0, 0, 0, 0, 0, 0] = .error .overflow := by decide
+
+/-- `rMax` as bytes, and `decode_preserves_seq` on it -/
+example : rMax.encode = [217, 132, 1, 2, 3, 21, 136, 255, 255, 255, 255, 255, 255, 255, 255,
+    130, 105, 100, 130, 118, 52, 116, 131, 1, 2, 3] := by decide
+
+example : ∃ r', decode tinyS rMax.encode = .ok (r', []) ∧ r'.seq = 2 ^ 64 - 1 :=
+  decode_preserves_seq tinyS rMax rMax_valid
+
+example : decode tinyS [217, 132, 1, 2, 3, 21, 136, 255, 255, 255, 255, 255, 255, 255, 255,
+    130, 105, 100, 130, 118, 52, 116, 131, 1, 2, 3] = .ok (rMax, []) := by decide +kernel
 
 #print axioms step_seq_succ
 #print axioms step_setSeq_exact
